@@ -11,7 +11,7 @@ from collections import OrderedDict
 from ..core import PropCheck, Case
 from .. import attrs_common as AC
 
-NAMES = ['foo', 'data-x', 'checked', 'id', 'FOO', 'a b']                   # plain, data-*, boolean, linked, upper-case, invalid
+NAMES = ['foo', 'data-x', 'checked', 'id', 'FOO', 'a b', 'foo\n']                   # plain, data-*, boolean, linked, upper-case, invalid
 VALUES = ['v', '', 'say "hi"', 'a b  c', '42', 'é☃']              # plain, empty, quote, spaces, numeric, non-ASCII
 # random histories only: values with white space of `str.isspace()` beyond ASCII / C's isspace, leading, trailing, inner (an ordinary
 # attribute keeps its value as it is; class / style strip it at the ends)
@@ -193,7 +193,7 @@ class Check(PropCheck):
         writable = [n for n in linked if not AC.link_row(tag, n)['validated']]
         readable = [n for n in linked if not AC.link_row(tag, n)['special']]
         attr_names = sorted(set(AC.link_row(tag, n)['attr'] for n in rng.sample(writable, min(6, len(writable)))))
-        names = ['foo', 'data-x', 'checked', 'FOO', 'Data-X', 'a b', 'x$', '_u', 'hidden', 'spellcheck'] + attr_names
+        names = ['foo', 'data-x', 'checked', 'FOO', 'Data-X', 'a b', 'x$', '_u', 'hidden', 'spellcheck', 'title\n', '\nid'] + attr_names
         n = rng.choice((1, 2, 3, 4, 6, 9, 14, 25))
         hist = []
         used_dots = set()
@@ -246,7 +246,10 @@ class Check(PropCheck):
         dots = sorted(set(rng.sample(readable, min(5, len(readable)))) | (used_dots & set(readable)))
         keys = sorted(set(['foo', 'checked', 'FOO', 'a b', 'zz'] + [rng.choice(names) for _ in range(4)]))
         chk = list(range(n + 1)) if n <= 6 else sorted(set([n] + [rng.randint(0, n) for _ in range(3)]))
-        return {'tag': tag, 'how': how, 'attrs': attrs, 'hist': hist, 'views': view_groups(keys, dots, cv), 'chk': chk}
+        d = {'tag': tag, 'how': how, 'attrs': attrs, 'hist': hist, 'views': view_groups(keys, dots, cv), 'chk': chk}
+        if how != 'parsed' and rng.random() < 0.3:
+            d['uptag'] = True       # AdvancedTag('INPUT', ...): same element as AdvancedTag('input', ...)
+        return d
 
     def nontrivial(self, d):
         writes = [it for it in d['hist'] if it[0] in ('sa', 'ms', 'ra', 'md', 'dot', 'sas')]
@@ -257,7 +260,7 @@ class Check(PropCheck):
         return (len(writes) >= 2 and any(len(v) >= 2 for v in paths.values())) or bool(d['attrs'])
 
     def features(self, d):
-        fs = ['len=%s' % (len(d['hist']) if len(d['hist']) < 6 else '6+'), 'how:' + d['how'], 'tag:' + d['tag']]
+        fs = ['len=%s' % (len(d['hist']) if len(d['hist']) < 6 else '6+'), 'how:' + d['how'], 'tag:' + d['tag']] + (['constructor-tag-upper-case'] if d.get('uptag') else [])
         AHP = AC.lib()
         for it in d['hist']:
             fs.append('op:' + it[0])
